@@ -368,6 +368,69 @@ Section DeepExact.
   Qed.
 End DeepExact.
 
+Section AbsDeep.
+  Hypothesis Hsplit : float_split_exact_on_D9.
+
+  (* copy.deepcopy of an AbsoluteDuration is the AbsoluteDuration of the ABSOLUTE value of its underlying timedelta: every component
+     (years, months, weeks, remaining days, seconds, microseconds) and total_seconds() identical, native value |N|, invert False *)
+  Lemma absdur_deep_result days seconds us ms mi h w years months d :
+    absolute_duration_new days seconds us ms mi h w years months = Ok d -> Z.abs (d_N d) < B33 ->
+    exists d', dur_rebuild RDeep d = Ok d' /\ d_N d' = Z.abs (d_N d) /\ d_abs d' = true /\ dur_invert d' = false
+      /\ d_years d' = d_years d /\ d_months d' = d_months d /\ d_weeks d' = d_weeks d /\ d_rdays d' = d_rdays d
+      /\ d_seconds d' = d_seconds d /\ d_micro d' = d_micro d /\ dur_total_seconds d' = dur_total_seconds d.
+  Proof.
+    intros H Hb.
+    pose proof (absolute_duration_partial Hsplit _ _ _ _ _ _ _ _ _ _ H Hb) as (HN & Hy & Hm & _ & _ & _ & _ & _ & Hsum & _).
+    pose proof (td_of_int_args_spec _ _ _ _ _ _ _ _ HN) as [_ Hrange].
+    unfold absolute_duration_new in H.
+    apply bind_ok in H. destruct H as [N [HN0 H]].
+    apply bind_ok in H. destruct H as [fr [Hfr H]].
+    apply bind_ok in H. destruct H as [micro [Hmi H]].
+    apply bind_ok in H. destruct H as [it [Hit H]].
+    injection H as Hd.
+    assert (EN : d_N d = N) by (rewrite <- Hd; reflexivity).
+    assert (Ha : d_abs d = true) by (rewrite <- Hd; reflexivity).
+    rewrite (absdur_rebuild_deep d Ha).
+    assert (HN' : td_of_int_args (d_rdays d) (dur_remaining_seconds d) (d_micro d) 0 (dur_minutes d) (dur_hours d) (d_weeks d) = Ok (Z.abs N)).
+    { pose proof (td_of_int_args_ok (d_rdays d) (dur_remaining_seconds d) (d_micro d) 0 (dur_minutes d) (dur_hours d) (d_weeks d)) as K.
+      cbv zeta in K.
+      replace (((((d_weeks d * 7 + d_rdays d) * 24 + dur_hours d) * 60 + dur_minutes d) * 60 + dur_remaining_seconds d) * 1000000 + 0 * 1000 + d_micro d)
+        with (Z.abs N) in K by (unfold comp_sum in Hsum; rewrite EN in Hsum; lia).
+      apply K. rewrite EN in Hrange. lia. }
+    unfold absolute_duration_new. rewrite HN'. cbn [bind].
+    assert (Ef : fabs (total_seconds (Z.abs N)) = fabs (total_seconds N)).
+    { rewrite total_seconds_abs. rewrite Z.abs_involutive. rewrite total_seconds_abs. reflexivity. }
+    rewrite Ef, Hfr. cbn [bind]. rewrite Hmi. cbn [bind]. rewrite Hit. cbn [bind].
+    eexists. split; [reflexivity|].
+    rewrite <- Hd. unfold dur_invert, dur_total_seconds.
+    cbn [d_N d_abs d_total d_years d_months d_weeks d_rdays d_seconds d_micro].
+    rewrite ?Z.abs_involutive.
+    repeat split.
+    - rewrite <- total_seconds_abs. apply flt_abs_zero.
+    - exact Ef.
+  Qed.
+
+  (* hence exact whenever the underlying value is not negative *)
+  Lemma absdur_deep_exact_nonneg days seconds us ms mi h w years months d :
+    absolute_duration_new days seconds us ms mi h w years months = Ok d -> 0 <= d_N d < B33 ->
+    exists d', dur_rebuild RDeep d = Ok d' /\ dur_public d' = dur_public d.
+  Proof.
+    intros H Hb.
+    assert (Hb' : Z.abs (d_N d) < B33) by lia.
+    destruct (absdur_deep_result _ _ _ _ _ _ _ _ _ _ H Hb') as (d' & R & A1 & A2 & A3 & A4 & A5 & A6 & A7 & A8 & A9 & A10).
+    exists d'. split; [exact R|].
+    apply absdur_new_inv in H. destruct H as (N & micro & it & _ & _ & _ & Hd).
+    assert (Ha : d_abs d = true) by (rewrite Hd; reflexivity).
+    assert (Hi : dur_invert d = false).
+    { unfold dur_invert. rewrite Ha. rewrite Hd. cbn [d_total].
+      assert (EN : N = Z.abs N) by (rewrite Hd in Hb; cbn [d_N] in Hb; lia).
+      rewrite EN. rewrite <- total_seconds_abs. apply flt_abs_zero. }
+    rewrite Z.abs_eq in A1 by lia.
+    unfold dur_public, dur_hours, dur_minutes, dur_remaining_seconds.
+    rewrite A1, A2, A3, A4, A5, A6, A7, A8, A9, A10, Ha, Hi. reflexivity.
+  Qed.
+End AbsDeep.
+
 (* ------------------------------------------------------------------ Interval *)
 Section Iv.
   Variable zdb : Z -> zone.
@@ -604,32 +667,43 @@ Definition absdur_deep_weeks_check : bool :=
             | Raise _ => false
             end
   | Raise _ => false
-  end
-  && match absolute_duration_new (-3) 0 0 0 0 0 (-2) 0 0 with
-     | Ok d => match dur_rebuild RDeep d with
-               | Ok d' => dur_invert d && negb (dur_invert d') && (d_weeks d =? 2) && (d_weeks d' =? 2) && (d_rdays d' =? d_rdays d)
-                          && triple_eqb (td_norm (d_N d)) (-17) 0 0 && triple_eqb (td_norm (d_N d')) 17 0 0
-               | Raise _ => false
-               end
-     | Raise _ => false
-     end.
+  end.
+Definition absdur_deep_sign_check : bool :=
+  match absolute_duration_new (-3) 0 0 0 0 0 (-2) 0 0 with
+  | Ok d => match dur_rebuild RDeep d with
+            | Ok d' => dur_invert d && negb (dur_invert d') && (d_weeks d =? 2) && (d_weeks d' =? 2)
+                       && triple_eqb (td_norm (d_N d)) (-17) 0 0 && triple_eqb (td_norm (d_N d')) 17 0 0
+            | Raise _ => false
+            end
+  | Raise _ => false
+  end.
 Lemma absdur_deep_weeks_check_true : absdur_deep_weeks_check = true. Proof. vm_compute. reflexivity. Qed.
+Lemma absdur_deep_sign_check_true : absdur_deep_sign_check = true. Proof. vm_compute. reflexivity. Qed.
 
+Lemma absdur_deep_weeks_witness1 :
+  exists d d', absolute_duration_new 3 0 0 0 0 5 2 0 0 = Ok d /\ d_weeks d = 2 /\ dur_rebuild RDeep d = Ok d' /\ dur_public d' = dur_public d.
+Proof.
+  pose proof absdur_deep_weeks_check_true as H. unfold absdur_deep_weeks_check in H.
+  destruct (absolute_duration_new 3 0 0 0 0 5 2 0 0) as [d|] eqn:E1; [|discriminate].
+  destruct (dur_rebuild RDeep d) as [d'|] eqn:E2; [|discriminate].
+  split_and H. exists d, d'. split; [reflexivity|]. split; [lia|]. split; [exact E2|]. apply zlist_eqb_eq. assumption.
+Qed.
+Lemma absdur_deep_weeks_witness2 :
+  exists d d', absolute_duration_new (-3) 0 0 0 0 0 (-2) 0 0 = Ok d /\ dur_invert d = true /\ d_weeks d = 2 /\ dur_rebuild RDeep d = Ok d'
+     /\ dur_invert d' = false /\ d_weeks d' = 2 /\ td_norm (d_N d) = (-17, 0, 0) /\ td_norm (d_N d') = (17, 0, 0).
+Proof.
+  pose proof absdur_deep_sign_check_true as H. unfold absdur_deep_sign_check in H.
+  destruct (absolute_duration_new (-3) 0 0 0 0 0 (-2) 0 0) as [d|] eqn:E3; [|discriminate].
+  destruct (dur_rebuild RDeep d) as [d'|] eqn:E4; [|discriminate].
+  split_and H. exists d, d'.
+  split; [reflexivity|]. split; [assumption|]. split; [lia|]. split; [exact E4|]. split; [apply negb_true_iff; assumption|].
+  split; [lia|]. split; apply triple_eqb_true; assumption.
+Qed.
 Lemma absdur_deep_weeks_witness :
   (exists d d', absolute_duration_new 3 0 0 0 0 5 2 0 0 = Ok d /\ d_weeks d = 2 /\ dur_rebuild RDeep d = Ok d' /\ dur_public d' = dur_public d) /\
   (exists d d', absolute_duration_new (-3) 0 0 0 0 0 (-2) 0 0 = Ok d /\ dur_invert d = true /\ d_weeks d = 2 /\ dur_rebuild RDeep d = Ok d'
      /\ dur_invert d' = false /\ d_weeks d' = 2 /\ td_norm (d_N d) = (-17, 0, 0) /\ td_norm (d_N d') = (17, 0, 0)).
-Proof.
-  pose proof absdur_deep_weeks_check_true as H. unfold absdur_deep_weeks_check in H.
-  apply andb_true_iff in H. destruct H as [H1 H2]. split.
-  - destruct (absolute_duration_new 3 0 0 0 0 5 2 0 0) as [d|] eqn:E1; [|discriminate].
-    destruct (dur_rebuild RDeep d) as [d'|] eqn:E2; [|discriminate].
-    split_and H1. exists d, d'. repeat split; try assumption; try lia. apply zlist_eqb_eq. assumption.
-  - destruct (absolute_duration_new (-3) 0 0 0 0 0 (-2) 0 0) as [d|] eqn:E3; [|discriminate].
-    destruct (dur_rebuild RDeep d) as [d'|] eqn:E4; [|discriminate].
-    split_and H2. exists d, d'. repeat split; try assumption; try lia; try (apply triple_eqb_true; assumption).
-    apply negb_true_iff. assumption.
-Qed.
+Proof. exact (conj absdur_deep_weeks_witness1 absdur_deep_weeks_witness2). Qed.
 
 (* Interval [02:30 fold=1 (+01:00) -> 04:00] in Paris, 90 minutes long: the pickled copy starts at 02:30+02:00 and is 150 minutes long *)
 Definition iv_wit_start : ep := EpDt paris_0230_fold1.
@@ -661,25 +735,36 @@ Qed.
 
 (* the same Interval (fold = 1 start), and the one whose end carries zoneinfo.ZoneInfo("Europe/Paris"), deep-copy to themselves: 90 minutes *)
 Definition iv_wit_end_foreign : ep := EpDt (mkdt (W_0230 + 5400 * 1000000) false (TzForeign (StdZone 0))).
-Lemma iv_deep_witness :
-  exists iv iv2, interval_new zdb_paris iv_wit_start iv_wit_end false = Ok iv /\ td_norm (iv_N iv) = (0, 5400, 0)
-    /\ iv_rebuild zdb_paris RDeep iv = Ok iv
-    /\ interval_new zdb_paris iv_wit_start iv_wit_end_foreign true = Ok iv2 /\ td_norm (iv_N iv2) = (0, 5400, 0)
-    /\ iv_rebuild zdb_paris RDeep iv2 = Ok iv2.
+Lemma iv_deep_witness1 :
+  exists iv, interval_new zdb_paris iv_wit_start iv_wit_end false = Ok iv /\ td_norm (iv_N iv) = (0, 5400, 0)
+    /\ iv_rebuild zdb_paris RDeep iv = Ok iv.
 Proof.
   assert (V1 : ep_valid iv_wit_start) by (split; [reflexivity | exact I]).
   assert (V2 : ep_valid iv_wit_end) by (split; [reflexivity | exact I]).
-  assert (V3 : ep_valid iv_wit_end_foreign) by (split; [reflexivity | exact I]).
-  assert (C : match interval_new zdb_paris iv_wit_start iv_wit_end false, interval_new zdb_paris iv_wit_start iv_wit_end_foreign true with
-              | Ok a, Ok b => triple_eqb (td_norm (iv_N a)) 0 5400 0 && triple_eqb (td_norm (iv_N b)) 0 5400 0
-              | _, _ => false end = true) by (vm_compute; reflexivity).
+  assert (C : match interval_new zdb_paris iv_wit_start iv_wit_end false with
+              | Ok a => triple_eqb (td_norm (iv_N a)) 0 5400 0 | _ => false end = true) by (vm_compute; reflexivity).
   destruct (interval_new zdb_paris iv_wit_start iv_wit_end false) as [iv|] eqn:E1; [|discriminate].
-  destruct (interval_new zdb_paris iv_wit_start iv_wit_end_foreign true) as [iv2|] eqn:E2; [|discriminate].
-  apply andb_true_iff in C. destruct C as [C1 C2].
-  exists iv, iv2. repeat split; try (apply triple_eqb_true; assumption).
-  - exact (iv_deep_id zdb_paris _ _ _ _ E1 V1 V2).
-  - exact (iv_deep_id zdb_paris _ _ _ _ E2 V1 V3).
+  exists iv. split; [reflexivity|]. split; [apply triple_eqb_true; assumption|].
+  exact (iv_deep_id zdb_paris _ _ _ _ E1 V1 V2).
 Qed.
+Lemma iv_deep_witness2 :
+  exists iv, interval_new zdb_paris iv_wit_start iv_wit_end_foreign true = Ok iv /\ td_norm (iv_N iv) = (0, 5400, 0)
+    /\ iv_rebuild zdb_paris RDeep iv = Ok iv.
+Proof.
+  assert (V1 : ep_valid iv_wit_start) by (split; [reflexivity | exact I]).
+  assert (V3 : ep_valid iv_wit_end_foreign) by (split; [reflexivity | exact I]).
+  assert (C : match interval_new zdb_paris iv_wit_start iv_wit_end_foreign true with
+              | Ok a => triple_eqb (td_norm (iv_N a)) 0 5400 0 | _ => false end = true) by (vm_compute; reflexivity).
+  destruct (interval_new zdb_paris iv_wit_start iv_wit_end_foreign true) as [iv|] eqn:E1; [|discriminate].
+  exists iv. split; [reflexivity|]. split; [apply triple_eqb_true; assumption|].
+  exact (iv_deep_id zdb_paris _ _ _ _ E1 V1 V3).
+Qed.
+Lemma iv_deep_witness :
+  (exists iv, interval_new zdb_paris iv_wit_start iv_wit_end false = Ok iv /\ td_norm (iv_N iv) = (0, 5400, 0)
+     /\ iv_rebuild zdb_paris RDeep iv = Ok iv) /\
+  (exists iv, interval_new zdb_paris iv_wit_start iv_wit_end_foreign true = Ok iv /\ td_norm (iv_N iv) = (0, 5400, 0)
+     /\ iv_rebuild zdb_paris RDeep iv = Ok iv).
+Proof. exact (conj iv_deep_witness1 iv_deep_witness2). Qed.
 
 (* satisfiability of the hypotheses used above *)
 Example dt_valid_example : dt_valid (mkdt W_0230 false (TzFixed 3600 [43; 48; 49; 58; 48; 48])).
@@ -707,4 +792,10 @@ Proof.
   assert (H : iv_example_check = true) by (vm_compute; reflexivity). unfold iv_example_check in H.
   destruct (interval_new zdb_paris iv_wit_end iv_wit_start true) as [iv|] eqn:E10; [|discriminate].
   split_and H. exists iv. split; [reflexivity | assumption].
+Qed.
+Example absdur_nonneg_example : exists d, absolute_duration_new 3 0 0 0 0 5 2 (-1) 0 = Ok d /\ 0 <= d_N d < B33.
+Proof.
+  assert (H : match absolute_duration_new 3 0 0 0 0 5 2 (-1) 0 with Ok d => (0 <=? d_N d) && (d_N d <? B33) | Raise _ => false end = true) by (vm_compute; reflexivity).
+  destruct (absolute_duration_new 3 0 0 0 0 5 2 (-1) 0) as [d|] eqn:E; [|discriminate].
+  exists d. split; [reflexivity | lia].
 Qed.
